@@ -101,6 +101,9 @@ def gen_step(rng, st: State):
             mp = {}
             for k in ks:
                 new = f"{k}_x"
+                if rng.random() < 0.12 and "" not in keys \
+                        and "" not in mp.values() and "" not in st.index:
+                    new = ""          # a legal but falsy label
                 while new in keys or new in mp.values():   # never onto a live key
                     new += "x"
                 mp[k] = new
